@@ -78,6 +78,20 @@ def resetCorrection (prev : V) : List V → V
 def rangeSeconds (rngMs : Int) : V :=
   add (ofInt (rngMs / 1000)) (div (ofInt ((rngMs % 1000) * 1000000)) (ofInt 1000000000))
 
+/-- the condition under which the extrapolation before the first sample is clamped at the
+counter's zero point, as Prometheus has it: a counter, a positive increase, a first value that is
+NOT NEGATIVE (a first value of exactly 0 - a fresh counter, a reset to 0 - counts). -/
+def clampApplies (isCounter : Bool) (result first : V) : Bool :=
+  isCounter && lt (ofInt 0) result && le (ofInt 0) first
+
+/-- the duration from the window start to the first sample that the extrapolation may use: at
+most the duration to the counter's zero point when the clamp applies. -/
+def clampedStart (isCounter : Bool) (result first sampled dStart0 : V) : V :=
+  if clampApplies isCounter result first then
+    let dZero := mul sampled (div first result)
+    if lt dZero dStart0 then dZero else dStart0
+  else dStart0
+
 /-- `extrapolatedRate` (rate / increase / delta). `w` is the window, `rs`/`re` its bounds. -/
 def extrapolated (isCounter isRate : Bool) (rs re rngMs : Int) (w : List (Pt V)) : Option V :=
   match w with
@@ -92,11 +106,7 @@ def extrapolated (isCounter isRate : Bool) (rs re rngMs : Int) (w : List (Pt V))
     let dEnd := div (ofInt (re - pl.t)) (ofInt 1000)
     let sampled := div (ofInt (pl.t - p0.t)) (ofInt 1000)
     let avgDur := div sampled (ofInt n1)
-    let dStart :=
-      if isCounter && lt (ofInt 0) result && le (ofInt 0) p0.v then
-        let dZero := mul sampled (div p0.v result)
-        if lt dZero dStart0 then dZero else dStart0
-      else dStart0
+    let dStart := clampedStart isCounter result p0.v sampled dStart0
     let thr := mul avgDur c1_1
     let half := div avgDur (ofInt 2)
     let ext := sampled
